@@ -477,7 +477,7 @@ class G:
             # value-carrying slot
             complex_ok = depth > 0
             pk_kind = "value"
-            if r in (60, 61) and self.opts.get("dtc", True):
+            if r in self.opts.get("dtc_r", (60, 61)) and self.opts.get("dtc", True):
                 dop, val, size = self.dtc_dop()
                 bit = 0
             elif r in (58, 59) and self.opts.get("system", True):
